@@ -1,1 +1,14 @@
-
+import SphericalVerif.Props.C20
+#print axioms C20.ctor_accepts
+#print axioms C20.ctor_stored_length
+#print axioms C20.ctor_stores
+#print axioms C20.ctor_reads_documented_position
+#print axioms C20.ctor_accepts_exactly_perfect_sizes
+#print axioms C20.ctor_rejects
+#print axioms C20.index_guards
+#print axioms C20.index_outcome
+#print axioms C20.index_value_in_range
+#print axioms C20.truncate_ell_spec
+#print axioms C20.truncate_ell_original_untouched
+#print axioms C20.views_keep_metadata
+#print axioms C20.views_keep_metadata_heap
